@@ -177,6 +177,18 @@ class SimpleTable:
 BLOOM_RATES = [0.5, 0.4, 0.3, 0.25, 0.2, 0.1, 0.05, 0.03, 0.01, 0.005, 0.001, 1e-4, 1e-5, 1e-6, 1e-9, 1e-12, 1e-20, 1e-30]
 
 
+def near_twin(est, rate, m, k):
+    """another est_elements (same rate) whose filter has a DIFFERENT number of bits but the same number of bytes and hashes, or None"""
+    for d in (1, -1, 2, -2, 3, -3, 4, -4, 5, 6, 7, 8):
+        e2 = est + d
+        if e2 < 1:
+            continue
+        mk = refimpl.bloom_sizing_simple(e2, refimpl.f32(rate))
+        if mk and mk[0] != m and (mk[0] + 7) // 8 == (m + 7) // 8 and mk[1] == k:
+            return e2, mk[0]
+    return None
+
+
 def bloom_geometry(rng, small=True, max_bits=60000):
     """(est_elements, rate, bits, hashes) accepted by the constructor (screened with the independent sizing);
     number_bits mod 8 spreads over all residues"""
